@@ -7,6 +7,7 @@ CONSTANTS
   ValidateFirst = TRUE
   Next0 = 2
   L1 = 4
-  L2 = 2
+  L1b = 2
+  L2 = 1
 INVARIANTS InvStoredOnlyValid InvAdvancesByPrefix InvRequests InvStatus Emit
 CHECK_DEADLOCK FALSE
